@@ -163,11 +163,9 @@ def run_cfg(chk, facts, cfg):
                 return True
             if imp['trait'] is not None and norm_path(imp['trait']) in allowed_traits:
                 return True
-            if imp['trait'] is None and not fn.get('exported') and depth < 6:
-                cs = callers.get(d, set())
-                return bool(cs) and all(site_ok(facts.fns[c], depth + 1) for c in cs if c != d)
-        if imp is None and fn['kind'] == 'Fn' and not fn.get('exported') and depth < 6:
-            # a private free helper is as trusted as the sites it is called from
+        if not fn.get('exported') and (imp is None or imp['trait'] is None) and depth < 6:
+            # a private helper (free function, or inherent method of the interval type or of a private helper type)
+            # is as trusted as every site it is called from
             cs = callers.get(d, set())
             return bool(cs) and all(site_ok(facts.fns[c], depth + 1) for c in cs if c != d)
         if fn.get('path', '').startswith('interval::_::') or 'serde' in fn.get('path', ''):
